@@ -12,38 +12,72 @@ def parseFate : String → Option Fate
   | "df" => some .dialFail
   | _ => none
 
+/-- `net.JoinHostPort` -/
+def joinHostPort (host : String) (port : Nat) : String :=
+  if host.contains ':' || host.contains '%' then s!"[{host}]:{port}" else s!"{host}:{port}"
+
+def mkThread (dir : Dir) (host : String) (port lport pid : Nat) (fate : Fate) : Option Thread :=
+  if host.isEmpty || port > 65535 || lport > 65535 then none
+  else
+    let addr := (joinHostPort host port).toList
+    let ip := ipOf addr
+    if ip.isEmpty then none   -- the real ParseIPAddr rejects it: not a connection the harness can make
+    else some { dir := dir, addr := addr, listenAddr := ip ++ (s!":{lport}").toList, pid := pid, fate := fate }
+
+/-- `<dir><n>,<host>,<port>,<lport>,<pid>,<fate>` (any host string), or the short IPv4 form
+`<dir><n>.<k>.<port>.<lport>.<pid>.<fate>` with host `10.0.0.<k>` -/
 def parseThread (d : String) : Option Thread :=
   match d.toList with
   | c :: rest =>
     let dir? : Option Dir := if c = 'i' then some .inb else if c = 'o' then some .outb else none
-    match dir?, (String.ofList rest).splitOn "." with
-    | some dir, [n, ip, port, lport, pid, fate] =>
-      match n.toNat?, ip.toNat?, port.toNat?, lport.toNat?, pid.toNat?, parseFate fate with
-      | some _, some ip, some port, some lport, some pid, some fate =>
-        if ip > 255 || port > 65535 || lport > 65535 then none
-        else some { dir := dir, ip := ip, port := port, lport := lport, pid := pid, fate := fate }
-      | _, _, _, _, _, _ => none
-    | _, _ => none
+    let body := String.ofList rest
+    match dir? with
+    | none => none
+    | some dir =>
+      if body.contains ',' then
+        match body.splitOn "," with
+        | [n, host, port, lport, pid, fate] =>
+          match n.toNat?, port.toNat?, lport.toNat?, pid.toNat?, parseFate fate with
+          | some _, some port, some lport, some pid, some fate => mkThread dir host port lport pid fate
+          | _, _, _, _, _ => none
+        | _ => none
+      else
+        match body.splitOn "." with
+        | [n, ip, port, lport, pid, fate] =>
+          match n.toNat?, ip.toNat?, port.toNat?, lport.toNat?, pid.toNat?, parseFate fate with
+          | some _, some ip, some port, some lport, some pid, some fate =>
+            if ip > 255 then none else mkThread dir s!"10.0.0.{ip}" port lport pid fate
+          | _, _, _, _, _, _ => none
+        | _ => none
   | [] => none
 
+def parseRsvEntry (x : String) : Option Ip :=
+  if x.isEmpty then none
+  else if x.all Char.isDigit then
+    match x.toNat? with
+    | some n => if n > 255 then none else some (s!"10.0.0.{n}").toList
+    | none => none
+  else some x.toList
+
+/-- `S:<maxIn>:<maxIp>:<maxOut>:<rsv>`, rsv = `*` or a `,`-list of hosts (a number `k` is `10.0.0.<k>`); hosts may
+contain `:` -/
 def parseCfg (tag : String) : Option Cfg :=
   match tag.splitOn ":" with
-  | ["S", a, b, c, r] =>
+  | "S" :: a :: b :: c :: r0 :: rs =>
+    let r := String.intercalate ":" (r0 :: rs)
     match a.toNat?, b.toNat?, c.toNat? with
     | some maxIn, some maxIp, some maxOut =>
       if r = "*" then some { maxIn := maxIn, maxIp := maxIp, maxOut := maxOut, rsv := none }
       else
-        match (r.splitOn ",").mapM (fun x => x.toNat?.bind (fun n => if n > 255 then none else some n)) with
+        match (r.splitOn ",").mapM parseRsvEntry with
         | some l => some { maxIn := maxIn, maxIp := maxIp, maxOut := maxOut, rsv := some l }
         | none => none
     | _, _, _ => none
   | _ => none
 
-def addrLe (a b : Addr) : Bool := a.1 < b.1 || (a.1 == b.1 && a.2 ≤ b.2)
-
 def showAddrs (l : List Addr) : String :=
   if l.isEmpty then "-"
-  else String.intercalate "," ((l.mergeSort addrLe).map (fun a => s!"{a.1}.{a.2}"))
+  else String.intercalate "," ((l.map String.ofList).mergeSort (fun a b => a ≤ b))
 
 def rejName : Rej → String
   | .reserved => "reserved" | .dup => "dup" | .self => "self" | .full => "full" | .ipfull => "ipfull"
@@ -59,14 +93,14 @@ def showRes : Res → String
   | .again f => if f then "again!fatal" else "again"
   | .rej r => "rej:" ++ rejName r
 
-def showState (ips : List Nat) (r : Res) (s : State) : String :=
-  let own := match s.own with | none => "-" | some a => s!"{a.1}.{a.2}"
-  let ipc := String.intercalate "," (ips.map (fun ip => s!"{ip}:{ipSlots s ip}"))
+def showState (ips : List Ip) (r : Res) (s : State) : String :=
+  let own := match s.own with | none => "-" | some a => String.ofList a
+  let ipc := String.intercalate "," (ips.map (fun ip => s!"{String.ofList ip}={ipSlots s ip}"))
   s!"{showRes r} I={showAddrs (s.bound .inb)} O={showAddrs (s.bound .outb)} L={showAddrs s.listen} C={showAddrs s.connecting} own={own} P={s.peers.length} ip={ipc}"
 
 def indexOf (ds : List String) (d : String) : Nat := (ds.takeWhile (· != d)).length
 
-def runOps (ips : List Nat) (ds : List String) : State → List String → List String → List String
+def runOps (ips : List Ip) (ds : List String) : State → List String → List String → List String
   | _, [], acc => acc.reverse
   | s, o :: rest, acc =>
     let (s', r) := macroStep s (indexOf ds o)
@@ -77,7 +111,7 @@ def runLine (cfg : Cfg) (ops : List String) : Option String :=
   match ds.mapM parseThread with
   | none => none
   | some ths =>
-    let ips := ((ths.map (·.ip)).mergeSort (· ≤ ·)).eraseDups
+    let ips := ((((ths.map (fun t => String.ofList t.ip)).mergeSort (fun a b => a ≤ b)).eraseDups).map String.toList)
     some (String.intercalate " | " (runOps ips ds (init cfg ths) ops []))
 
 def handle (line : String) : String :=
